@@ -388,3 +388,52 @@ def gen_multi(r):
         return ctx_tokens(tuple(c)) + [str(r.choice([0, 1, 255, 65535, r.randint(0, 1 << 30)])),
                                        str(r.choice([0, 1, 254, 65535, r.randint(0, 1 << 30)])), tok(tokn)]
     return " ".join(["oscmulti"] + peer(sa, ta) + peer(sb, tb) + steps)
+
+
+# ---- requests carrying a Proxy-Uri: the split of RFC 7252 6.4 / RFC 8613 4.1.3.3 is computed here
+# from the URI's components (independently of libcoap) and protected by the reference ----
+PROXY_SCHEMES = [("coap", 5683), ("coaps", 5684), ("coap+tcp", 5683), ("coaps+tcp", 5684)]
+URI_CHARS = "abcdefghijklmnopqrstuvwxyz0123456789-._~"
+
+
+def _word(r, lo, hi):
+    while True:
+        w = "".join(r.choice(URI_CHARS) for _ in range(r.randint(lo, hi)))
+        if w not in (".", ".."):        # dot segments are removed (RFC 3986 5.2.4): not a plain split
+            return w
+
+
+def gen_proxy(r):
+    c = gen_ctx(r)
+    scheme, dflt = r.choice(PROXY_SCHEMES[:2] * 3 + PROXY_SCHEMES)
+    host = r.choice(["h", "example.net", "example.com", "a.b", "host-1.example.org",
+                     _word(r, 1, 3), _word(r, 12, 14), _word(r, 20, 40), "10.0.0.1"])
+    port = r.choice([None, None, 5683, 5684, 61616, 80, 1, 65535])
+    segs = [] if r.random() < 0.3 else [_word(r, 1, r.choice([1, 3, 12, 13, 14])) for _ in range(r.choice([1, 1, 2, 3]))]
+    query = [] if r.random() < 0.5 else ["%s=%s" % (_word(r, 1, 4), _word(r, 1, 6)) for _ in range(r.choice([1, 2, 3]))]
+    uri = scheme + "://" + host + ("" if port is None else ":%d" % port)
+    if segs:
+        uri += "/" + "/".join(segs)
+    elif query and r.random() < 0.5:
+        uri += "/"
+    elif not query and r.random() < 0.5:
+        uri += "/"
+    if query:
+        uri += "?" + "&".join(query)
+    opts = [(3, host.encode())]
+    if port is not None and port != dflt:
+        opts.append((7, uint_bytes(port)))
+    opts += [(11, x.encode()) for x in segs]
+    if r.random() < 0.3:
+        opts.append((12, uint_bytes(r.choice([0, 42, 60]))))
+    opts += [(15, x.encode()) for x in query]
+    opts.append((16, b"\x10"))          # added by coap_add_option() together with Proxy-Uri (RFC 8768)
+    if r.random() < 0.3:
+        opts.append((17, uint_bytes(r.choice([0, 60]))))
+    opts.append((39, scheme.encode()))
+    if r.random() < 0.2:
+        opts.append((60, uint_bytes(r.choice([0, 1024]))))
+    m = dict(type=r.choice([0, 1]), code=r.choice([1, 2, 3, 4]), mid=r.randint(0, 65535),
+             token=rb(r, r.choice([0, 1, 4, 8])), opts=opts, payload=rb(r, r.choice([0, 0, 5, 17])))
+    cseq = r.choice(BND_SEQ[:12])
+    return " ".join(["oscproxy"] + ctx_tokens(c) + [uri.encode().hex()] + msg_tokens(m) + [str(cseq)]), uri
